@@ -50,13 +50,14 @@ theorem needT3_of_seq {b : Int} {κ f : Nat} {t : Tx} (h : TxSeqP b κ f t)
 
 theorem CohP.deliverSack {b : Int} {κ f r : Nat} {s : PLink} (h : CohP b κ f r s) (p : Int × List (Nat × Nat))
     (hp : p ∈ s.toTx) (rest : List (Int × List (Nat × Nat))) (hrest : ∀ q ∈ rest, q ∈ s.toTx) :
-    ∃ κ' f', κ ≤ κ' ∧ CohP b κ' f' r (s.deliverSack p.1 p.2 rest)
+    ∃ κ' f' k, κ ≤ κ' ∧ p.1 = T b k ∧ k ≤ r ∧ ((κ' = κ ∧ k < κ) ∨ (κ' = k ∧ κ ≤ k))
+      ∧ CohP b κ' f' r (s.deliverSack p.1 p.2 rest)
       ∧ f' + (s.deliverSack p.1 p.2 rest).tx.nOut = f + s.tx.nOut := by
   obtain ⟨k, hk, hpk⟩ := h.core.toTx p hp
   rw [hpk]
-  rcases deliverSack_casesP h k hk p.2 rest with ⟨_, he⟩ | ⟨hge, t', evs, f', hrs, hidx, he⟩
+  rcases deliverSack_casesP h k hk p.2 rest with ⟨hlt, he⟩ | ⟨hge, t', evs, f', hrs, hidx, he⟩
   · rw [he]
-    exact ⟨κ, f, Nat.le_refl _, ⟨h.core.grow h.core.seq h.core.rlo (Nat.le_refl _) (Nat.le_refl _) rfl
+    exact ⟨κ, f, k, Nat.le_refl _, rfl, hk, Or.inl ⟨rfl, hlt⟩, ⟨h.core.grow h.core.seq h.core.rlo (Nat.le_refl _) (Nat.le_refl _) rfl
       (fun a ha => Or.inl ha) hrest, h.snd, h.need⟩, rfl⟩
   · rw [he]
     have hsnd : SndInv { tx := t'.transmit.1, pending := s.pending } := by
@@ -68,7 +69,7 @@ theorem CohP.deliverSack {b : Int} {κ f r : Nat} {s : PLink} (h : CohP b κ f r
     have hc2 : CoreP b k f' r { s with tx := t'.transmit.1, toRx := s.toRx ++ arrOf t'.transmit.2, toTx := rest } :=
       hc1.transmit rfl rfl (fun a ha => List.mem_append.mp ha) (fun q hq => hq)
     have hneed : NeedT3 t'.transmit.1 := (needT3_of_seq hidx.seq hidx.fwdNew).transmit
-    refine ⟨k, f', hge, ⟨hc2, hsnd, hneed⟩, ?_⟩
+    refine ⟨k, f', k, hge, rfl, hk, Or.inr ⟨rfl, hge⟩, ⟨hc2, hsnd, hneed⟩, ?_⟩
     have := (transmit_queues t').2
     have := hidx.cons
     show f' + t'.transmit.1.nOut = f + s.tx.nOut
@@ -133,7 +134,7 @@ theorem CohP.fault {b : Int} {κ f r : Nat} {s : PLink} (h : CohP b κ f r s) (f
     cases hi : s.toTx[i]? with
     | none => exact ⟨κ, f, r, h, by simp [Fault.sent]⟩
     | some p =>
-      obtain ⟨κ', f', _, hc, hn⟩ := h.deliverSack p (List.mem_of_getElem? hi) (s.toTx.eraseIdx i)
+      obtain ⟨κ', f', _, _, _, _, _, hc, hn⟩ := h.deliverSack p (List.mem_of_getElem? hi) (s.toTx.eraseIdx i)
         (fun e he => List.mem_of_mem_eraseIdx he)
       exact ⟨κ', f', r, hc, by simp only [Fault.sent]; omega⟩
   | dropData i =>
